@@ -83,55 +83,82 @@ def requestRestoreOf (t : Tree) (win : Id) : Res Tree := do
 
 /-! ### focus transfer -/
 
+/- Style note: every `do` block below binds plain variables only and branches only in tail position; a C block that
+   branches in the middle of a function is a helper function of its own.  (Pattern-matching `let`s and non-tail
+   `match`/`if` make the elaborated term duplicate its continuation, which the proofs cannot follow.) -/
+
+/-- First half of `_focus_lost(win)`: `if(win->focused_child) { _focus_lost(win->focused_child); if(win->focus_child_notify) OUT }`.
+    `rec` is the recursive call. -/
+def focusLostChild (rec : Tree → Id → Res (Tree × List Event)) (t : Tree) (win : Id) : Res (Tree × List Event) := do
+  let w ← get t win
+  match w.focusedChild with
+  | none => pure (t, [])
+  | some c => do
+    let r ← rec t c
+    let w' ← get r.1 win
+    pure (r.1, r.2 ++ (if w'.focusChildNotify then [(⟨win, .focusOut, c⟩ : Event)] else []))
+
+/-- Second half of `_focus_lost(win)`: `if(win->is_focused) { win->is_focused = false; OUT }`. -/
+def focusLostSelf (t : Tree) (win : Id) (evs : List Event) : Res (Tree × List Event) := do
+  let w ← get t win
+  if w.isFocused then
+    pure (set t win { w with isFocused := false }, evs ++ [⟨win, .focusOut, win⟩])
+  else pure (t, evs)
+
 /-- `_focus_lost(win)`. -/
 def focusLost : Nat → Tree → Id → Res (Tree × List Event)
   | 0, _, _ => .ub "focus chain too long"
   | fuel + 1, t, win => do
-    let w ← get t win
-    let (t, evs) ← match w.focusedChild with
-      | some c => do
-        let (t, e1) ← focusLost fuel t c
-        let w ← get t win
-        pure (t, e1 ++ (if w.focusChildNotify then [(⟨win, .focusOut, c⟩ : Event)] else []))
-      | none => pure (t, [])
-    let w ← get t win
-    if w.isFocused then
-      pure (set t win { w with isFocused := false }, evs ++ [⟨win, .focusOut, win⟩])
-    else pure (t, evs)
+    let r ← focusLostChild (focusLost fuel) t win
+    focusLostSelf r.1 win r.2
+
+/-- First block of `_focus_gained(win, child)`:
+    unchanged: `if(win->focused_child && child && win->focused_child != child) _focus_lost(win->focused_child);`
+    repaired:  `if(win->focused_child && win->focused_child != child) { _focus_lost(old); if(notify) OUT(old) }`. -/
+def gainLoseOld (fx : Fixes) (t : Tree) (win : Id) (child : Option Id) : Res (Tree × List Event) := do
+  let w ← get t win
+  match w.focusedChild with
+  | none => pure (t, [])
+  | some fc =>
+    if (child.isSome || fx.focusEvents) && some fc ≠ child then do
+      let r ← focusLost (treeFuel t) t fc
+      let w' ← get r.1 win
+      pure (r.1, r.2 ++ (if fx.focusEvents && w'.focusChildNotify then [(⟨win, .focusOut, fc⟩ : Event)] else []))
+    else pure (t, [])
+
+/-- Repaired only: `if(child && win->is_focused) { win->is_focused = false; OUT(win) }`. -/
+def gainSelfOut (fx : Fixes) (t : Tree) (win : Id) (child : Option Id) (evs : List Event) : Res (Tree × List Event) := do
+  let w ← get t win
+  if fx.focusEvents && child.isSome && w.isFocused then
+    pure (set t win { w with isFocused := false }, evs ++ [⟨win, .focusOut, win⟩])
+  else pure (t, evs)
+
+/-- `if(win->parent) { if(win->is_visible) _focus_gained(win->parent, win); } else _request_restore(_get_root(win));` -/
+def gainClimb (rec : Tree → Id → Option Id → Res (Tree × List Event)) (t : Tree) (win : Id) : Res (Tree × List Event) := do
+  let w ← get t win
+  match w.parent with
+  | some p => if w.isVisible then rec t p (some win) else pure (t, [])
+  | none => do
+    let t' ← requestRestoreOf t win
+    pure (t', [])
+
+/-- The tail of `_focus_gained`: own IN event or the notification, then `win->focused_child = child`. -/
+def gainSelfIn (t : Tree) (win : Id) (child : Option Id) (evs : List Event) : Res (Tree × List Event) := do
+  let w ← get t win
+  match child with
+  | none => pure (set t win { w with isFocused := true, focusedChild := none }, evs ++ [⟨win, .focusIn, win⟩])
+  | some c =>
+    pure (set t win { w with focusedChild := some c },
+          evs ++ (if w.focusChildNotify then [(⟨win, .focusIn, c⟩ : Event)] else []))
 
 /-- `_focus_gained(win, child)`; `child = none` is the C `NULL` (the window itself takes the focus). -/
 def focusGained (fx : Fixes) : Nat → Tree → Id → Option Id → Res (Tree × List Event)
   | 0, _, _, _ => .ub "parent chain too long"
   | fuel + 1, t, win, child => do
-    let w ← get t win
-    -- unchanged: if(win->focused_child && child && win->focused_child != child) _focus_lost(win->focused_child);
-    -- repaired:  if(win->focused_child && win->focused_child != child) { _focus_lost(old); notify win OUT(old) }
-    let (t, e1) ← match w.focusedChild with
-      | some fc =>
-        if (child.isSome || fx.focusEvents) && some fc ≠ child then do
-          let (t, e) ← focusLost (treeFuel t) t fc
-          let w ← get t win
-          pure (t, e ++ (if fx.focusEvents && w.focusChildNotify then [(⟨win, .focusOut, fc⟩ : Event)] else []))
-        else pure (t, [])
-      | none => pure (t, [])
-    -- repaired only: if(child && win->is_focused) { win->is_focused = false; OUT(win) }
-    let w ← get t win
-    let (t, e1') :=
-      if fx.focusEvents && child.isSome && w.isFocused then
-        (set t win { w with isFocused := false }, [(⟨win, .focusOut, win⟩ : Event)])
-      else (t, [])
-    let w ← get t win
-    let (t, e2) ← match w.parent with
-      | some p => if w.isVisible then focusGained fx fuel t p (some win) else pure (t, [])
-      | none => do
-        let t ← requestRestoreOf t win
-        pure (t, [])
-    let w ← get t win
-    let (t, e3) := match child with
-      | none => (set t win { w with isFocused := true }, [(⟨win, .focusIn, win⟩ : Event)])
-      | some c => (t, if w.focusChildNotify then [(⟨win, .focusIn, c⟩ : Event)] else [])
-    let w ← get t win
-    pure (set t win { w with focusedChild := child }, e1 ++ e1' ++ e2 ++ e3)
+    let r1 ← gainLoseOld fx t win child
+    let r2 ← gainSelfOut fx r1.1 win child r1.2
+    let r3 ← gainClimb (focusGained fx fuel) r2.1 win
+    gainSelfIn r3.1 win child (r2.2 ++ r3.2)
 
 /-- `tickit_window_take_focus`. -/
 def takeFocus (fx : Fixes) (t : Tree) (win : Id) : Res (Tree × List Event) :=
@@ -240,6 +267,10 @@ def chainWalk : Nat → Tree → Id → Res Id
       | none => pure win
       | some c => chainWalk fuel t c
 
+/-- Does the rectangle of a (visible) child cover the cell?  The two `continue` tests of `_cell_visible`. -/
+def rectCovers (r : Rect) (line col : Int) : Bool :=
+  !(decide (line < r.top) || decide (line ≥ r.bottom)) && !(decide (col < r.left) || decide (col ≥ r.right))
+
 /-- The inner `for` of `_cell_visible`: children of the window in front of `prev` (all of them when `prev` is
     `none`); `true` = some visible one covers the cell. -/
 def coveredBy (t : Tree) (prev : Option Id) (line col : Int) : List Id → Res Bool
@@ -248,10 +279,8 @@ def coveredBy (t : Tree) (prev : Option Id) (line col : Int) : List Id → Res B
     if prev = some ch then pure false
     else do
       let cw ← get t ch
-      if !cw.isVisible then coveredBy t prev line col rest
-      else if line < cw.rect.top ∨ line ≥ cw.rect.bottom then coveredBy t prev line col rest
-      else if col < cw.rect.left ∨ col ≥ cw.rect.right then coveredBy t prev line col rest
-      else pure true
+      if cw.isVisible && rectCovers cw.rect line col then pure true
+      else coveredBy t prev line col rest
 
 /-- `_cell_visible(win, line, col)`; `prev` is the window the walk came from. -/
 def cellVisible : Nat → Tree → Id → Option Id → Int → Int → Res Bool
@@ -259,26 +288,33 @@ def cellVisible : Nat → Tree → Id → Option Id → Int → Int → Res Bool
   | fuel + 1, t, win, prev, line, col => do
     let w ← get t win
     if line < 0 ∨ line ≥ w.rect.lines ∨ col < 0 ∨ col ≥ w.rect.cols then pure false
-    else
+    else do
       let cov ← coveredBy t prev line col w.children
       if cov then pure false
       else match w.parent with
         | none => pure true
         | some p => cellVisible fuel t p (some win) (line + w.rect.top) (col + w.rect.left)
 
+/-- The condition of `_do_restore` (repaired: `win->is_visible &&` in front). -/
+def restoreShown (fx : Fixes) (t : Tree) (win : Id) : Res Bool := do
+  let w ← get t win
+  if (!fx.hiddenRoot || w.isVisible) && w.isFocused && w.cursor.visible then
+    cellVisible (treeFuel t) t win none w.cursor.line w.cursor.col
+  else pure false
+
+/-- The calls `_do_restore` makes when it shows the cursor of `win`. -/
+def restoreCalls (t : Tree) (win : Id) : Res (List TermCall) := do
+  let w ← get t win
+  let abs ← absGeometry t (treeFuel t) win
+  pure ([.goto (w.cursor.line + abs.top) (w.cursor.col + abs.left), .shape w.cursor.shape]
+        ++ (if w.cursor.blink ≠ -1 then [.blink w.cursor.blink] else [])
+        ++ [.vis 1])
+
 /-- `_do_restore`: the calls made on the terminal. -/
 def doRestore (fx : Fixes) (t : Tree) : Res (List TermCall) := do
   let win ← chainWalk (treeFuel t) t 0
-  let w ← get t win
-  let shown ← if (!fx.hiddenRoot || w.isVisible) && w.isFocused && w.cursor.visible then
-      cellVisible (treeFuel t) t win none w.cursor.line w.cursor.col
-    else pure false
-  if shown then
-    let abs ← absGeometry t (treeFuel t) win
-    pure ([.goto (w.cursor.line + abs.top) (w.cursor.col + abs.left), .shape w.cursor.shape]
-          ++ (if w.cursor.blink ≠ -1 then [.blink w.cursor.blink] else [])
-          ++ [.vis 1])
-  else pure [.vis 0]
+  let shown ← restoreShown fx t win
+  if shown then restoreCalls t win else pure [.vis 0]
 
 /-- The queue loop of `tickit_window_flush`. -/
 def applyChanges (t : Tree) : List Req → Res Tree
@@ -301,21 +337,22 @@ def flushExpose (t : Tree) : Tree :=
     { t with root := { t.root with needsExpose := false, damage := [], needsRestore := true } }
   else t
 
+/-- The `if(root->needs_restore)` block of `tickit_window_flush`. -/
+def flushRestore (fx : Fixes) (t : Tree) (exposed : List Rect) (c1 : List TermCall) : Res FlushOut :=
+  if t.root.needsRestore then do
+    let c2 ← doRestore fx { t with root := { t.root with needsRestore := false } }
+    pure { tree := { t with root := { t.root with needsRestore := false } }, exposed := exposed, calls := c1 ++ c2 }
+  else pure { tree := t, exposed := exposed, calls := c1 }
+
 /-- `tickit_window_flush(root)`.  Rendering is not modelled: the harness binds no handler that draws, so the
     render buffer stays empty and `flush_to_term` makes no call on the terminal. -/
 def flush (fx : Fixes) (t : Tree) : Res FlushOut :=
   if !t.root.needsLater then pure { tree := t }
   else do
     let t1 ← applyChanges { t with root := { t.root with needsLater := false } } t.root.changes
-    let t2 : Tree := { t1 with root := { t1.root with changes := [] } }
-    let exposed := if t2.root.needsExpose then t2.root.damage else []
-    let c1 := if t2.root.needsExpose then [TermCall.vis 0] else []
-    let t3 := flushExpose t2
-    if t3.root.needsRestore then do
-      let t4 : Tree := { t3 with root := { t3.root with needsRestore := false } }
-      let c2 ← doRestore fx t4
-      pure { tree := t4, exposed := exposed, calls := c1 ++ c2 }
-    else pure { tree := t3, exposed := exposed, calls := c1 }
+    flushRestore fx (flushExpose { t1 with root := { t1.root with changes := [] } })
+      (if t1.root.needsExpose then t1.root.damage else [])
+      (if t1.root.needsExpose then [TermCall.vis 0] else [])
 
 /-! ### specification -/
 
